@@ -245,6 +245,9 @@ public:
     void set_my_tls_end_of_input() {
         end_of_input_tls.set(this);
     }
+    void clear_my_tls_end_of_input() {
+        end_of_input_tls.set(nullptr);
+    }
 };
 
 void input_buffer::grow( size_type minimum_size ) {
@@ -373,8 +376,18 @@ bool stage_task::execute_filter(d1::execution_data& ed) {
 
             try_spawn_stage_task(ed);
 
+            // The body may wait for nested parallel work and so run, on this very thread, another
+            // invocation of this input filter that calls flow_control::stop(). The thread-local mark
+            // must tell about this invocation only, otherwise a valid null object is dropped.
+            input_buffer* tls_owner = my_filter->object_may_be_null() ? my_filter->my_input_buffer : nullptr;
+            bool outer_mark = tls_owner && tls_owner->my_tls_end_of_input();
+            if( outer_mark ) tls_owner->clear_my_tls_end_of_input();
             my_object = (*my_filter)(my_object);
-            if( !my_object && (!my_filter->object_may_be_null() || my_filter->my_input_buffer->my_tls_end_of_input()) ){
+            bool stopped = tls_owner && tls_owner->my_tls_end_of_input();
+            if( tls_owner && stopped != outer_mark ) {
+                if( outer_mark ) tls_owner->set_my_tls_end_of_input(); else tls_owner->clear_my_tls_end_of_input();
+            }
+            if( !my_object && (!my_filter->object_may_be_null() || stopped) ){
                 my_pipeline.end_of_input.store(true, std::memory_order_relaxed);
                 return false;
             }
